@@ -16,6 +16,7 @@ import (
 	"sort"
 	"strconv"
 	"strings"
+	"sync"
 	"sync/atomic"
 	"time"
 
@@ -388,7 +389,65 @@ func (h *harness) exec(f []string) string {
 	return "unknown-op"
 }
 
+// observation only (not part of the check): two goroutines Set while a third one flushes. The documented contract is ONE
+// driving goroutine; this shows what the code does when it is broken: is there a guard that fails loudly?
+func concurrencyObservation() {
+	var got sync.Map
+	var handed int64
+	p := unionstore.NewPipelinedMemDB(func(ctx context.Context, keys [][]byte) (map[string]kv.ValueEntry, error) { return nil, nil },
+		func(gen uint64, db *unionstore.MemDB) error {
+			for it := db.IterWithFlags(nil, nil); it.Valid(); it.Next() {
+				got.Store(string(it.Key()), true)
+				atomic.AddInt64(&handed, 1)
+			}
+			return nil
+		})
+	const n = 20000
+	var wg sync.WaitGroup
+	panics := int64(0)
+	for w := 0; w < 2; w++ {
+		wg.Add(1)
+		go func(w int) {
+			defer wg.Done()
+			defer func() {
+				if x := recover(); x != nil {
+					atomic.AddInt64(&panics, 1)
+					fmt.Println("writer panic:", x)
+				}
+			}()
+			for i := 0; i < n; i++ {
+				p.Set([]byte(fmt.Sprintf("w%d-%06d", w, i)), []byte("v"))
+			}
+		}(w)
+	}
+	flushErrs := 0
+	func() {
+		defer func() {
+			if x := recover(); x != nil {
+				fmt.Println("flusher panic:", x)
+			}
+		}()
+		for i := 0; i < 400; i++ {
+			if _, err := p.Flush(true); err != nil {
+				flushErrs++
+			}
+			runtime.Gosched()
+		}
+	}()
+	wg.Wait()
+	p.Flush(true)
+	p.FlushWait()
+	distinct := 0
+	got.Range(func(_, _ any) bool { distinct++; return true })
+	fmt.Printf("OBSERVATION writers=2 sets=%d distinct_keys_handed_to_flush=%d mutations_handed=%d flush_errors=%d panics=%d Len()=%d\n",
+		2*n, distinct, handed, flushErrs, panics, p.Len())
+}
+
 func main() {
+	if len(os.Args) >= 2 && os.Args[1] == "concurrency-observation" {
+		concurrencyObservation()
+		return
+	}
 	if len(os.Args) < 2 {
 		fmt.Fprintln(os.Stderr, "usage: pipelined <casefile>")
 		os.Exit(2)
